@@ -75,6 +75,21 @@ PROPS = {
                         "unicode.IsLetter/IsDigit are the regenerated range tables (Go toolchain of the run)",
                         "fmt's %c/%q/%d and strings.Builder behave as the model's string building (compared through the rendered error text)"],
     },
+    "C08": {
+        "lean": ["Knut.Properties.C08"],
+        "level": "proof",
+        "claim": "Lean theorems over the model of lib/syntax/printer (extract the fields, then render; same format strings) and formatRunner.formatFile: C08_unparseable_untouched, C08_gaps_verbatim (output = the input's own gap slices interleaved with the re-rendered directives). The print-then-parse round trip (C08_reparse_same_fields, C08_idempotent, C08_format_total) is being staged; see Properties/C08.lean for the exact state. Tie: syntax.FormatFile in-process and `knut format` on temp files are compared byte for byte with the model; the Lean predicate formatOK (same directives and fields, gaps byte for byte) is evaluated on the real trees of input and output; reparse and format-twice are checked on the real code for every case.",
+        "note": "Trusted: Lean kernel; axioms propext, Classical.choice, Quot.sound; fmt padding (%-*s, %10s count runes) and strings.Join as modelled (compared byte for byte); "
+                "atomic.WriteFile is C18's subject; cobra argument handling and multierr are glue (exit status compared).",
+        "rule": "streams: corpus (repository journals); journal (grammar-based layouts: tabs, CRLF, trailing blanks, multi-line descriptions, Unicode account names and digits, "
+                "both addon orders, multi-line assertions, missing final newline); stress (layouts the formatter must normalise: amounts wider than 10, one-balance multi-line "
+                "assertions, annotations before non-transactions, transactions ending at EOF, CR/tab inside directives); mutated (byte-level edits, mostly unparseable); formatted "
+                "(already formatted text); cli (`knut format` on one or two temp files: file bytes afterwards, exit status, no leftover files). Every in-process case: "
+                "syntax.FormatFile output vs model output byte for byte; monitors on the real output: it parses, Lean formatOK (same directives/fields by semFlat, gaps equal) on the "
+                "two real trees, formatting again changes nothing; cli: unparseable files untouched. A class = outcome x changed? x directive-kind set x layout tags.",
+        "assumptions": ["fmt.Fprintf padding verbs and strings.Join behave as renderDir (compared on every case)",
+                        "the parser model equals the Go parser (C07's correspondence, re-exercised here through c08format)"],
+    },
     "C11": {
         "lean": ["Knut.Properties.C11"],
         "level": "proof",
